@@ -58,9 +58,8 @@ Fixpoint text_ok (pretty : bool) (f : fmt) (v : jv) {struct v} : bool :=
   | JBig z => negb pretty && negb (small z)
   | JDec raw => dec_ok raw
   | JStr s => str_ok f false s
-  | JArr l => (fix all (l : list jv) : bool := match l with [] => true | x :: r => text_ok pretty f x && all r end) l
+  | JArr l => forallb (text_ok pretty f) l
   | JObj kvs =>
     keys_nodup (map fst kvs) &&
-    (fix all (l : list (bytes * jv)) : bool :=
-       match l with [] => true | (k, x) :: r => str_ok f true k && text_ok pretty f x && all r end) kvs
+    forallb (fun kv => str_ok f true (fst kv) && text_ok pretty f (snd kv)) kvs
   end.
